@@ -4,8 +4,9 @@ CONSTANTS Unit = 21000
           PlainAccts = 2
           BlobAccts = 1
           MaxLen = 2
+          BlobMaxLen = 1
           Tips = {1, 2}
-          GasShapes <- GS3
+          GasShapes <- GS2
           PlainCls = {"ok", "nonceLow", "invalid"}
           BlobCls = {"ok"}
           BlobCounts = {1, 2}
@@ -13,5 +14,5 @@ CONSTANTS Unit = 21000
           Amsterdam = FALSE
           StateShapes = {0}
           EmitCases = FALSE
-INVARIANTS OnlyOk NoDup NonceOrder BlobLimit GasLimit ImportValid Progress RevDisjoint
+INVARIANTS OnlyOk NoDup NonceOrder BlobLimit GasLimit ImportValid Progress RevDisjoint NoFitLeft
 CHECK_DEADLOCK FALSE
